@@ -41,7 +41,7 @@ def laws(rng, quick):
             L.append(("alias<->FormatField", A.Alias(name), A.FormatField({"b": ">", "l": "<", "n": "="}[order], {16: "e", 32: "f", 64: "d"}[bits]), [bits // 8], gen.FLOATS[:14] + [1, "x", None]))
     for a, b in (("Byte", "Int8ub"), ("Short", "Int16ub"), ("Int", "Int32ub"), ("Long", "Int64ub"), ("Half", "Float16b"), ("Single", "Float32b"), ("Double", "Float64b")):
         L.append(("alias<->alias", A.Alias(a), A.Alias(b), [gen.alias_info(b)[1].bit_length() // 8 if b.startswith("Int") else int(b[5:7]) // 8], [0, 1, 255, 256, -1, 65535, 2**32, 2**64 - 1, 2**64, 1.5, None]))
-    subs = [A.Alias("Byte"), A.Alias("Int16ub"), A.Const(b"\x01"), A.VarInt, A.CString("utf8"), A.Flag]
+    subs = [A.Alias("Byte"), A.Alias("Int16ub"), A.Const(b"\x01"), A.VarInt, A.CString("utf8"), A.Flag, A.Alias("Int8sb"), A.Alias("Int16sl"), A.BytesInteger(3, signed=True)]
     for x in subs:
         L.append(("Optional<->Select(x,Pass)", A.Optional(x), A.Select(x, A.Pass), [0, 1, 2, 3], [None, 0, 1, 255, 256, "a", b"\x01", True]))
         for c in (A.C(True), A.C(False), A.T("_params", "k"), A.Bin("==", A.T("_params", "k"), A.C(2))):
